@@ -96,8 +96,8 @@ pub const FIXED_PATTERNS: [&str; 8] = [
     "a.{}.zst",
     "arch/run-{}/a.{}.log",
     "z{}/a.{}.gz",
-    "архив-журналов-приложения-за-прошлые-периоды/журнал.{}.log",
-    "日志归档目录历史记录保存位置/甲乙丙丁戊己庚辛壬癸{}.log",
+    "архив-журналов-приложения-за-прошлые-периоды/журнал_{}.log",
+    "日志归档目录历史记录保存位置/甲乙丙丁戊己庚辛壬癸-{}.log",
 ];
 pub const T0: i64 = 1_700_000_000;
 
